@@ -209,6 +209,7 @@ def run(program, res, tier):
                                      EQUIVALENT.get(k.name, {}))
     res.expect_count("C12-S1", "printed slots", total_slots, 18)
     _s4_optional_omission(program, model, res)
+    _s5_eval_environment(program, model, res)
     # RecordMap / RecordSpecification __repr__ against their constructors
     for cname in ("RecordSpecification", "RecordMap"):
         cls = program.cls("cdata", cname)
@@ -303,6 +304,47 @@ def _s4_optional_omission(program, model, res):
             # not printed at all / under another keyword: that is reported by the slot rule above
             res.abstain("C12-S1", f"{kname}: omission condition of `{field}`", "the field is not printed under its own keyword")
     return n
+
+
+def _s5_eval_environment(program, model, res):
+    """the names that head printed source (constructors of leaf nodes, record maps, data frames) are bound in the environment the library
+    itself uses to re-evaluate printed pipelines (expr_parse_fn's module globals, copied into g_env)"""
+    import re as _re
+    ef = program.module("expr_parse_fn")
+    bound = set(ef.imports) | set(ef.consts) | set(ef.functions) | set(ef.classes)
+    for st in ef.toplevel:
+        if isinstance(st, ast.ImportFrom):
+            bound |= {a.asname or a.name for a in st.names}
+        elif isinstance(st, ast.Import):
+            bound |= {(a.asname or a.name).split(".")[0] for a in st.names}
+    if "g_env" not in ef.consts or "globals()" not in unparse(ef.consts["g_env"]):
+        raise AnalysisError("expr_parse_fn.g_env is no longer built from the module globals")
+    heads = {}
+    pat_head = _re.compile(r"(?:^|[\s(=])((?:[A-Za-z_][A-Za-z_0-9]*\.)*[A-Z][A-Za-z_0-9]*)\(")
+    for k in model.kinds.values():
+        if k.name not in ("TableDescription", "SQLNode"):
+            continue
+        pr = k.method("to_python_src_")
+        for c in ast.walk(pr.node):
+            if isinstance(c, ast.Constant) and isinstance(c.value, str):
+                for m in pat_head.finditer(c.value):
+                    heads.setdefault(m.group(1), pr)
+    for cname in ("RecordSpecification", "RecordMap"):
+        pr = program.cls("cdata", cname).methods.get("__repr__")
+        for c in ast.walk(pr.node):
+            if isinstance(c, ast.Constant) and isinstance(c.value, str):
+                for m in pat_head.finditer(c.value):
+                    heads.setdefault(m.group(1), pr)
+    if not any(h.endswith("TableDescription") for h in heads) or not any(h.endswith("SQLNode") for h in heads):
+        raise AnalysisError(f"printed constructor names not found (got {sorted(heads)})")
+    for h, pr in sorted(heads.items()):
+        root = h.split(".")[0]
+        if root in bound:
+            res.ok("C12-S1", f"printed source starts `{h}(`: `{root}` is bound in the re-evaluation environment (expr_parse_fn)")
+        else:
+            res.fail_at("C12-S1", pr, f"printed-name-unbound:{h}",
+                        f"{pr.qualname} prints `{h}(…)`, but `{root}` is not among the names expr_parse_fn makes available to eval_da_ops: the "
+                        f"printed source of such a pipeline raises NameError instead of rebuilding it")
 
 
 def _s2(program, res):
